@@ -114,6 +114,15 @@ theorem saveCall_eq : Gen.Persist.saveCall =
     Gen.Persist.saveBody = ["yaml.dump(continuation_data.__getstate__(), continuation_file, Dumper=SnowfakeryDumper)"] := by
   decide
 
+/-- the file is produced by ONE dump call of the WHOLE state: the call is the expression statement
+    of the function body itself — not inside a loop, a condition or a helper — and its first argument
+    is the complete `__getstate__()` dict.  (PyYAML numbers anchors `id001…` per dump call and
+    `safe_load` rejects a document that defines an anchor twice; the model's `yamlDump` is one
+    function of the whole state.) -/
+theorem saveCall_single_document :
+    Gen.Persist.saveCallContext = ["Expr", "Call"] ∧ Gen.Persist.saveBody.length = 1 ∧
+    Gen.Persist.saveCall[1]? = some "continuation_data.__getstate__()" := by decide
+
 theorem loadBody_eq : Gen.Persist.loadBody = ["return hydrate(Globals, yaml.safe_load(continuation_file))"] := by
   decide
 
